@@ -143,3 +143,12 @@ claim('C17',
       'outside; `set` in the fingerprint modules is replaced by a recorder in the folding harness.',
       'symbolic execution of the real fingerprint code (minisym): bit-vector validity queries for the folding, '
       'solver-enumerated labels for the fragments', 'DESIGN.md §4 C17')
+claim('C15',
+      'compose on mapped shape pairs with every charge and radical flag of both sides symbolic and every bond order '
+      'solver-enumerated: the reaction centre is exactly my "differs" set and dynamic atoms/bonds carry both sides\' values; '
+      'identical sides have no centre; the dynamic symbol tables are total and injective; the reaction string is the same for '
+      'every order of molecules inside a role and for symbolic role counts (incl. empty roles, salts, radicals) and reads back '
+      'to the same roles; the CGR string and centre are invariant under every consistent renumbering of both sides.',
+      'Bounded: 5 shape pairs <= 5 atoms, charges -1..1, orders {1,2,3}; role counts 0..2 (quick) / 0..3; 3 (6) reactions for '
+      'the renumbering clause (permutations realised by the solver).',
+      'symbolic execution of the real compose / signature code with z3 (minisym)', 'DESIGN.md §4 C15')
